@@ -154,6 +154,8 @@ MUTANTS = [
      "        k = np.asarray(wc.k_1, dtype=np.float64).copy()", "        k = np.asarray(wc.k_1).copy()"),
     ("c13-scalar-returns-none", "C13", "pylife/core/broadcaster.py",
      "        if prm.shape == ():\n            return prm, self._obj", "        if prm.shape == ():\n            return prm, None"),
+    ("c13-revert-haigh-order", "C13", "pylife/strength/meanstress.py",
+     "        meanstress[self._R_index.left >= 1.0] = -np.inf\n", "        meanstress[starts_at_minus_inf] = -1.0\n        meanstress[self._R_index.left >= 1.0] = -1.0\n"),
     ("c13-wc-k-below-limit", "C13", "pylife/materiallaws/woehlercurve.py",
      "        below_limit = np.asarray(src < ref)", "        below_limit = np.asarray(src <= ref)"),
 ]
